@@ -20,8 +20,9 @@ RULES = {
     'R6': 'qb_log_real_va_: the buffer handed to cs_format has the capacity passed as maxlen on the stack and the heap branch, and that capacity is never 0 (entailed at every cs_format call: with no target selected the default applies)',
     'R7': 'the format scan never steps over the format\'s terminator: the step that follows a directive is taken only if the character it steps over is not NUL',
     'R8': 'the formatted line is terminated at its write index: the terminating NUL is stored at output[idx] (not at an earlier position that later stores can overwrite) on every path',
+    'R9': 'a width is whatever number the format gives (widths 0..large): the value handed to _strcpy_cutoff as the field width comes from a conversion that saturates (strtoul / strtoull), not from atoi / atol / strtol, whose result for a width beyond INT_MAX wraps - "%4294967301b" would cut the message to 5 characters',
 }
-FLOORS = {'R1': 14, 'R2': 6, 'R3': 3, 'R4': 3, 'R5': 4, 'R6': 4, 'R7': 2, 'R8': 1}
+FLOORS = {'R1': 14, 'R2': 6, 'R3': 3, 'R4': 3, 'R5': 4, 'R6': 4, 'R7': 2, 'R8': 1, 'R9': 2}
 
 MLL = 'max_line_length'      # canonical term of qb_log_target.max_line_length (engine.bounds.CANON_FIELDS)
 
@@ -147,6 +148,7 @@ def run(ctx):
     r6(ctx)
     r7(ctx)
     r8(ctx)
+    r9(ctx)
 
 
 def r3(ctx, lo, hi):
@@ -329,3 +331,22 @@ def r8(ctx):
               'the line is terminated by a NUL stored at output[write index]',
               'the terminating NUL is stored at an earlier position (%s) and the byte at the write index is left unset: the truncation mark, which is written '
               'up to the write index, overwrites that terminator and the line is not terminated within its buffer' % (estr(early[0].lhs) if early else 'not on every path'))
+
+
+def r9(ctx):
+    prog = ctx.prog
+    n = 0
+    for f in prog.all_fns(files={'lib/log_format.c'}):
+        cuts = list(f.calls('_strcpy_cutoff'))
+        if not cuts:
+            continue
+        wv = {estr(unwrap(ev.args[2])) for ev in cuts if unwrap(ev.args[2]).get('k') == 'var'}
+        for st in f.events('STORE'):
+            if estr(st.lhs) in wv and st.rhs is not None and unwrap(st.rhs).get('k') == 'call':
+                c = callee_of(unwrap(st.rhs))
+                n += 1
+                ctx.check('R9', '%s:width-conversion-saturates' % f.name, c in ('strtoul', 'strtoull', 'strtoumax'), st,
+                          'the field width is read with %s' % c,
+                          'the field width is read with %s: a width beyond INT_MAX (LONG_MAX) is undefined / wraps instead of being a large width' % c)
+    if n < 2:
+        raise AnalysisBroken('R9: %d width conversions found in the two formatters' % n)
